@@ -45,6 +45,7 @@ from bacpypes.primitivedata import (Atomic, Null, Boolean, Unsigned, Integer, Re
 from bacpypes.constructeddata import Any, AnyAtomic, Array, ArrayOf, List, ListOf, Sequence, Choice
 import bacpypes.constructeddata as cd
 import bacpypes.object as bo
+from bacpypes.errors import ExecutionError
 from bacpypes.basetypes import PropertyIdentifier, DateRange
 from bacpypes.object import (Object, Property, OptionalProperty, ReadableProperty, WritableProperty, register_object_type)
 
@@ -883,6 +884,20 @@ def run_pool(fn, jobs):
 
 
 # ---- the small store on a real device (R) ---------------------------------------------------------------------------------
+class ComputedProperty(Property):
+    """a property whose value is computed by its ReadProperty (the pattern of the library's own protocolServicesSupported /
+    activeCovSubscriptions and of its RandomAnalogValue samples): nothing is kept in the object's value table"""
+
+    def __init__(self, identifier, datatype, token):
+        Property.__init__(self, identifier, datatype, default=None, optional=True, mutable=False)
+        self.token = token
+
+    def ReadProperty(self, obj, arrayIndex=None):
+        if arrayIndex is not None:
+            raise ExecutionError(errorClass="property", errorCode="propertyIsNotAnArray")
+        return self.token
+
+
 @register_object_type(vendor_id=999)
 class StoreObject(Object):
     """realises the kinds of the abstract store with real bacpypes datatypes: writable scalar, read-only scalar
@@ -895,6 +910,7 @@ class StoreObject(Object):
         WritableProperty("subordinateAnnotations", ListOf(CharacterString)),
         WritableProperty("dateList", ArrayOf(DateRange)),          # an array of constructed elements
         OptionalProperty("deviceType", CharacterString),
+        ComputedProperty("profileName", CharacterString, "a"),    # read-only, optional, computed on every read
     ]
 
 
@@ -906,7 +922,7 @@ def store_objects():
                         eventMessageTexts=ArrayOf(CharacterString, 2)(["a", "a"]), subordinateAnnotations=["a"],
                         dateList=ArrayOf(DateRange)([DateRange(startDate=(120, 1, 1, 3), endDate=(120, 1, 31, 5))]))
         for prop in [p for pid, p in list(o._properties.items())
-                     if pid in ("profileName", "auditLevel", "auditableOperations", "tags", "profileLocation")]:
+                     if pid in ("auditLevel", "auditableOperations", "tags", "profileLocation")]:
             o.delete_property(prop)         # keep the store small (Object.delete_property is the library's own API)
         out.append(("s%d" % inst, o))
     return out
